@@ -3,11 +3,13 @@
 import json, subprocess
 claimed = {
  "C07": ("Offset, Limit (number, percent, WITH TIES), SortValue/SortValues.EquivalentTo proved against the property-level postconditions for all inputs; Evaluate's frame and sort.Sort are assumed", "4 C07"),
+ "C01": ("the commit protocol of Transaction.Commit is proved on ghost state: every table image is written into a file that was truncated and rewound, and no file swap (Container.Commit) starts before all images are written, so a failure while encoding leaves every table file as it was; Handler.commit / close and Container.Commit / Close carry the file-system effect (ghost file system); the composition over every program and termination point (Processor.Execute, cli deferred rollback) is outside", "4 C01"),
  "C03": ("row plumbing of SELECT proved for all inputs: WHERE/HAVING compaction keeps exactly the rows whose slot is set, in order (and the slot is set iff the condition is TRUE), select-list projection (Fix) and its per-row worker, USING/NATURAL column merge worker, concatenation helpers, worker partition (RecordRange) and merge order (MergeRecordSetList), OFFSET; expression evaluation, header resolution and the goroutine runner are assumed contracts", "4 C03"),
  "C05": ("INSERT path proved end to end below field resolution (rows appended in the given order, each given column filled from its value, other columns NULL, count = rows given); REPLACE: columns rewritten are non-key given columns, unmatched rows appended in the given order; helpers RecordSet.Merge / Copy; UPDATE/DELETE/ALTER front halves are outside", "4 C05"),
  "C06": ("the coercion ladder (CompareCombinedly) and the six operators, Identical, Compare, Equivalent, the value readings (To*), Kleene connectives of the ternary dependency, BETWEEN / AND / OR / NOT / IS expansions and integer/float arithmetic are proved against the documented rules; the consistency laws of the statement are lemmas over those contracts", "4 C06"),
  "C10": ("crash-point invariant of Handler.commit on a ghost file system: after every file-system call the table path holds the complete old or the complete new contents, on success the new ones; FileForUpdate routes writes to the temp file; Container.Commit delegates to commit for the registered handler; POSIX semantics of rename/remove/create are assumed contracts", "4 C10"),
  "C11": ("on a ghost file system: Handler.close / closeWithErrors / commit and ControlFile.Close leave none of the handler's control files and never touch the table of a read or update handler; every failed acquisition (NewHandlerFor*, TryCreate*) leaves no control file of its own; the transient lock of TryCreateRLockFile is removed on every path; signals and the retry loop (select) are outside", "4 C11"),
+ "C15": ("block stack and lookups: CreateChild puts one new block in front of the parent's (shared, unchanged) blocks; GetVariable / SubstituteVariableDirectly / FetchCursor act on the innermost block that declares the name and touch no other block (ghost model of the sync.Map-backed block maps); control-flow mapping of WHILE / function calls is not yet under contract", "4 C15"),
  "C16": ("Cursor.Fetch/Close/IsOpen/IsInRange/Count/Pointer proved against an abstract (snapshot, position) view for all positions and offsets, with machine integer arithmetic modelled exactly", "4 C16"),
 }
 na = {
